@@ -716,6 +716,25 @@ VARIANTS = [
      rep_in(FHS, "_put_metadata", "                if os.path.isfile(metadata_tmp):\n                    # Remove tmp metadata", "                if not os.path.isfile(metadata_tmp):\n                    # Remove tmp metadata")),
     ("C13", "C13.c", "failed object move: the temp file is left behind",
      rep_in(FHS, "_move_and_get_checksums", "                    self._delete(\"tmp\", tmp_file_name)\n                    err_msg = (\n                        f\"Object has not been stored for pid", "                    err_msg = (\n                        f\"Object has not been stored for pid")),
+    ("C13", "C13.j", "store_metadata removes the previous document before the move into place",
+     rep_in(FHS, "_put_metadata", "                shutil.move(metadata_tmp, full_path)\n", "                self._delete(\"metadata\", full_path)\n                shutil.move(metadata_tmp, full_path)\n")),
+    ("C13", "C13.j", "store_metadata unlinks the previous document when present",
+     rep_in(FHS, "_put_metadata", "                shutil.move(metadata_tmp, full_path)\n", "                if os.path.isfile(full_path):\n                    os.remove(full_path)\n                shutil.move(metadata_tmp, full_path)\n")),
+    ("C15", "C15.h", "hashstore.yaml written from the properties as spelled by the caller",
+     rep_in(FHS, "_write_properties", "            checked_properties[property_name]\n", "            properties[property_name]\n")),
+    ("C15", None, "twin: depth and width coerced a second time at the writer call",
+     rep_in(FHS, "_write_properties", "        hashstore_configuration_yaml = self._build_hashstore_yaml_string(\n            store_depth,\n            store_width,\n", "        hashstore_configuration_yaml = self._build_hashstore_yaml_string(\n            int(store_depth),\n            int(store_width),\n")),
+    ("C07", "C07.d", "membership scan through the update handle before the flock (generator expression)",
+     rep_in(FHS, "_update_refs_file", "                    fcntl.flock(file_descriptor, fcntl.LOCK_EX)\n                    new_pid_lines = [", "                    already_gone = not any(l.strip() == ref_id for l in ref_file)\n                    fcntl.flock(file_descriptor, fcntl.LOCK_EX)\n                    ref_file.seek(0)\n                    new_pid_lines = [")),
+    ("C12", "C12.g", "delete_metadata moves marked documents back after a failed marking",
+     rep_in(FHS, "delete_metadata", "                    finally:\n                        # Release pid\n", "                    except Exception:\n                        for marked_path in objects_to_delete:\n                            shutil.move(marked_path, marked_path[: -len(\"_delete\")])\n                        raise\n                    finally:\n                        # Release pid\n")),
+    ("C10", "C10.b", "the pid look-up moved out of the try that owns delete_object's clean-up handlers",
+     rep_in(FHS, "delete_object", "            try:\n                object_info_dict = self._find_object(pid)\n", "            object_info_dict = self._find_object(pid)\n            try:\n")),
+    ("C05", "C05.h", "the pid look-up moved out of the try that owns delete_object's clean-up handlers",
+     rep_in(FHS, "delete_object", "            try:\n                object_info_dict = self._find_object(pid)\n", "            object_info_dict = self._find_object(pid)\n            try:\n")),
+    ("C10", None, "twin: delete_object's look-up goes through a local helper function called inside the try",
+     chain(rep_in(FHS, "delete_object", "            try:\n                object_info_dict = self._find_object(pid)\n", "            try:\n                object_info_dict = self._lookup_for_delete(pid)\n"),
+           rep(FHS, "    def _delete_object_only(self, cid: str) -> None:\n", "    def _lookup_for_delete(self, pid: str):\n        info = self._find_object(pid)\n        return info\n\n    def _delete_object_only(self, cid: str) -> None:\n"))),
     ("C13", "C13.h", "return inside finally swallows the error",
      rep_in(FHS, "_delete_object_only", "        finally:\n            self._release_object_locked_cids(cid)\n", "        finally:\n            self._release_object_locked_cids(cid)\n            return\n")),
 ]
